@@ -337,3 +337,53 @@ Proof.
   - apply spec_refines; [apply AInv_init | apply Sim_init | exact F].
   - eapply Forall_impl; [|exact F]. apply aop_ok2_ok.
 Qed.
+
+(* ---------- statements of several operations ---------- *)
+
+Definition xop_ok (x : xop) : Prop :=
+  match x with XOp o => aop_ok2 o | XSeq ops _ => Forall aop_ok2 ops end.
+
+(* one operation: implementation model and specification move together *)
+Lemma step_joint st m sp o : AInv st -> agrees st m -> Sim st sp -> aop_ok2 o ->
+  snd (sstep sp m o) = snd (astep st o) /\
+  AInv (fst (astep st o)) /\ agrees (fst (astep st o)) (snd (fst (sstep sp m o))) /\
+  Sim (fst (astep st o)) (fst (fst (sstep sp m o))).
+Proof.
+  intros I A S Ho. destruct (step_refines st m o I A (aop_ok2_ok _ Ho)) as (R1 & R2 & R3).
+  destruct (step_sim st sp m o I S Ho) as (E1 & E2 & S').
+  split; [congruence|]. split; [apply astep_inv; [assumption | apply aop_ok2_ok, Ho]|].
+  split; [rewrite E2; exact R3 | rewrite <- R2; exact S'].
+Qed.
+
+Lemma seq_joint ops : forall st m sp, AInv st -> agrees st m -> Sim st sp -> Forall aop_ok2 ops ->
+  snd (sseq sp m ops) = snd (aseq st ops) /\
+  AInv (fst (aseq st ops)) /\ agrees (fst (aseq st ops)) (snd (fst (sseq sp m ops))) /\
+  Sim (fst (aseq st ops)) (fst (fst (sseq sp m ops))).
+Proof.
+  induction ops as [|o ops IH]; intros st m sp I A S F; simpl; [auto|].
+  inversion F as [|? ? Ho F']; subst.
+  destruct (step_joint st m sp o I A S Ho) as (E & I' & A' & S').
+  destruct (astep st o) as [s1 out1]. destruct (sstep sp m o) as [[sp1 m1] out2]. simpl in *. subst out2.
+  destruct out1; simpl; auto.
+Qed.
+
+Lemma xstep_joint st m sp x : AInv st -> agrees st m -> Sim st sp -> xop_ok x ->
+  snd (sxstep sp m x) = snd (xstep st x) /\
+  AInv (fst (xstep st x)) /\ agrees (fst (xstep st x)) (snd (fst (sxstep sp m x))) /\
+  Sim (fst (xstep st x)) (fst (fst (sxstep sp m x))).
+Proof.
+  intros I A S Hx. destruct x as [o|ops tail]; simpl in *.
+  - apply step_joint; assumption.
+  - destruct (seq_joint ops st m sp I A S Hx) as (E & I' & A' & S').
+    destruct (aseq st ops) as [s1 out1]. destruct (sseq sp m ops) as [[sp1 m1] out2]. simpl in *. subst out2. auto.
+Qed.
+
+Theorem statements_meet_spec xs : forall st m sp, AInv st -> agrees st m -> Sim st sp -> Forall xop_ok xs ->
+  xrun st xs = sxrun sp m xs /\ AInv (xfinal st xs).
+Proof.
+  induction xs as [|x xs IH]; intros st m sp I A S F; simpl; [auto|].
+  inversion F as [|? ? Hx F']; subst.
+  destruct (xstep_joint st m sp x I A S Hx) as (E & I' & A' & S').
+  destruct (xstep st x) as [s1 out1]. destruct (sxstep sp m x) as [[sp1 m1] out2]. simpl in *. subst out2.
+  destruct (IH s1 m1 sp1 I' A' S' F') as [E1 I1]. split; [f_equal; exact E1 | exact I1].
+Qed.
